@@ -31,4 +31,4 @@ func NumCPU() int { return cpus() }
 
 func GOMAXPROCS(n int) int { return cpus() }
 
-func Gosched() { Yield(YAtomic, 0) }
+func Gosched() { YieldAway(YAtomic) }
